@@ -173,9 +173,13 @@ func rxNumeral(t []byte, f *rxFeatures) bool {
 // rxLex tokenises s; ok=false on a lexical error.
 func rxLex(s []byte, f *rxFeatures) (toks []rxTok, ok bool) {
 	i := 0
-	// a first line starting with '#' is skipped (shebang)
-	if len(s) > 0 && s[0] == '#' {
-		for i < len(s) && s[i] != '\n' {
+	// a UTF-8 byte order mark at the very beginning is skipped (luaL_loadfilex: skipBOM)
+	if len(s) >= 3 && s[0] == 0xEF && s[1] == 0xBB && s[2] == 0xBF {
+		i = 3
+	}
+	// a first line starting with '#' is skipped (shebang); the line ends at LF or CR
+	if i < len(s) && s[i] == '#' {
+		for i < len(s) && s[i] != '\n' && s[i] != '\r' {
 			i++
 		}
 	}
